@@ -542,6 +542,7 @@ def run(rep, ctx):
     rep.rule("R04.1", "Cluster.get_cell hands out the prototype cell built by the region search; nobody rewrites it; the region is 2D exactly when the cell has two spans")
     with rep.guard("R04.1"):
         r04_1(rep, M, "R04.1")
+        merged_region_is_larger(rep, M, "R04.1")
     rep.rule("R04.2", "prototype cells are periodic in three directions (3D builder) or exactly (a, b) (2D builder, reduced cells) (shared with C01)")
     with rep.guard("R04.2"):
         c01.r01_5(rep, M, "R04.2")
@@ -551,6 +552,7 @@ def run(rep, ctx):
         factors_times_cell(rep, M, "R04.3")
         both_directions_alike(rep, M, "R04.3")
         image_labels_add(rep, M, "R04.3")
+        span_through_minus_neighbour(rep, M, "R04.3")
     rep.rule("R04.4", "a layered cell found as 3D keeps its two thick vectors, gets the normal as third, is periodic in (a, b) and is minimised along the last axis")
     with rep.guard("R04.4"):
         r04_4(rep, M, "R04.4")
@@ -811,3 +813,147 @@ def image_labels_add(rep, M, rid):
                                   "graph, loses its occurrences and is dropped from the prototype cell (e.g. `MoS` instead of `MoS2`)", M.where(fq, st))
     if n < 2:
         raise AnalysisError(f"image labels of found atoms recognised at {n} site(s); both prototype-cell builders have one")
+
+
+# ----------------------------------------------------------------------------- 3D builder: the span seen from a node, through its -span neighbour
+def _poly_of(e, env):
+    """tiny polynomial evaluation: expression -> {monomial (sorted tuple of symbols): coefficient}; None if not polynomial in the known symbols"""
+    if isinstance(e, ast.Name):
+        return env.get(e.id)
+    if isinstance(e, ast.Constant) and isinstance(e.value, (int, float)):
+        return {(): e.value}
+    if isinstance(e, ast.UnaryOp) and isinstance(e.op, ast.USub):
+        a = _poly_of(e.operand, env)
+        return None if a is None else {k: -v for k, v in a.items()}
+    if isinstance(e, ast.BinOp):
+        a, b = _poly_of(e.left, env), _poly_of(e.right, env)
+        if a is None or b is None:
+            return None
+        if isinstance(e.op, (ast.Add, ast.Sub)):
+            sg = 1 if isinstance(e.op, ast.Add) else -1
+            r = dict(a)
+            for k, v in b.items():
+                r[k] = r.get(k, 0) + sg * v
+            return {k: v for k, v in r.items() if v}
+        if isinstance(e.op, ast.Mult):
+            r = {}
+            for k1, v1 in a.items():
+                for k2, v2 in b.items():
+                    k = tuple(sorted(k1 + k2))
+                    r[k] = r.get(k, 0) + v1 * v2
+            return {k: v for k, v in r.items() if v}
+    return None
+
+
+def span_through_minus_neighbour(rep, M, rid):
+    """_find_proto_cell_3d: the cell vector seen from a node is multiplier * (displacement to the neighbour + periodic-image correction); the
+    multiplier (-1 when only the neighbour at -span exists) applies to the corrected displacement as a whole. The 2D builder writes
+    `multiplier * displacement + correction`; there the -span branch was never taken in 5184 probed executions (DESIGN section 3, C02), so no
+    obligation is put on it - a change of the 3D builder to that form is reported (slabs whose surface atoms only have a -span neighbour across a
+    lateral periodic boundary get a distorted prototype cell)"""
+    fq = PF + "._find_proto_cell_3d"
+    fn = M.func(fq)
+    corr = [s for s in ast.walk(fn) if isinstance(s, ast.Assign) and isinstance(s.targets[0], ast.Name)
+            and ((isinstance(s.value, ast.Call) and (M.ext_name(fq, s.value.func) or "") in ("numpy.dot", "numpy.matmul"))
+                 or (isinstance(s.value, ast.BinOp) and isinstance(s.value.op, ast.MatMult)))]
+    if not corr:
+        raise AnalysisError("_find_proto_cell_3d: periodic-image correction not found")
+    cname = corr[0].targets[0].id
+    # the block that holds the correction
+    blk = None
+    for node in ast.walk(fn):
+        for f in ("body", "orelse"):
+            b = getattr(node, f, None)
+            if isinstance(b, list) and corr[0] in b:
+                blk = b
+    if blk is None:
+        raise AnalysisError("_find_proto_cell_3d: block of the periodic-image correction not found")
+    mults = {s.targets[0].id for s in ast.walk(fn) if isinstance(s, ast.Assign) and isinstance(s.targets[0], ast.Name)
+             and ((isinstance(s.value, ast.Constant) and s.value.value in (1, -1)) or (isinstance(s.value, ast.UnaryOp) and isinstance(s.value.operand, ast.Constant)
+                                                                                    and s.value.operand.value == 1))}
+    disp = [s for s in blk if isinstance(s, ast.Assign) and isinstance(s.targets[0], ast.Name) and isinstance(s.value, ast.BinOp) and isinstance(s.value.op, ast.Sub)
+            and all(isinstance(x, ast.Subscript) for x in (s.value.left, s.value.right))]
+    if not disp or not mults:
+        raise AnalysisError("_find_proto_cell_3d: displacement / multiplier of the per-node cell vector not recognised")
+    env = {cname: {("c",): 1}, disp[0].targets[0].id: {("d",): 1}}
+    for mname in mults:
+        env[mname] = {("m",): 1}
+    stored = [s for s in ast.walk(fn) if isinstance(s, ast.Assign) and isinstance(s.targets[0], ast.Subscript) and isinstance(s.value, ast.Name)]
+    target = None
+    for s in blk[blk.index(corr[0]) + 1:]:
+        if isinstance(s, ast.Assign) and isinstance(s.targets[0], ast.Name) and s not in disp:
+            p = _poly_of(s.value, env)
+            if p is not None:
+                env[s.targets[0].id] = p
+                target = s.targets[0].id
+        elif isinstance(s, ast.AugAssign) and isinstance(s.target, ast.Name) and s.target.id in env:
+            op = {ast.Mult: ast.Mult, ast.Add: ast.Add, ast.Sub: ast.Sub}.get(type(s.op))
+            p = _poly_of(ast.BinOp(left=ast.Name(id=s.target.id, ctx=ast.Load()), op=op(), right=s.value), env) if op else None
+            if p is None:
+                raise AnalysisError(f"_find_proto_cell_3d: `{norm(s)}` not modelled")
+            env[s.target.id] = p
+            target = s.target.id
+    if target is None or not any(norm(s.value) == target for s in stored):
+        raise AnalysisError("_find_proto_cell_3d: the per-node cell vector stored into the cell array was not recognised")
+    got = env[target]
+    want = {("d", "m"): 1, ("c", "m"): 1}
+    shown = " + ".join(f"{v}*{'*'.join(k)}" for k, v in sorted(got.items()))
+    if got == want:
+        rep.ok(rid, f"_find_proto_cell_3d: per-node cell vector = multiplier * (displacement + image correction)  [{shown}]")
+    else:
+        rep.violation(rid, "_find_proto_cell_3d: per-node cell vector", f"`{target}` = {shown} (m multiplier, d displacement, c periodic-image correction); required m*d + m*c: "
+                      "with the correction outside the multiplier a node whose only neighbour is the one at -span across a periodic boundary gets a vector that is off by "
+                      "twice a lattice translation, its cell collects wrong relative positions and the averaged prototype cell is distorted (rutile (110) slabs: space group 6 or "
+                      "38 instead of 136)", M.where(fq, corr[0]))
+
+
+# ----------------------------------------------------------------------------- a merged cluster keeps the larger of the two regions
+def merged_region_is_larger(rep, M, rid):
+    """SBC._merge_clusters.merge: the region (hence the prototype cell Cluster.get_cell() hands out) of the merged cluster is the one with more basis
+    atoms; the smaller region usually stems from a surface seed and lacks basis atoms"""
+    fq = c01.SBC + "._merge_clusters.merge"
+    if fq not in M.defs:
+        fq = next((q for q in M.defs if q.startswith(c01.SBC + "._merge_clusters") and q.endswith(".merge")), None)
+    if fq is None:
+        raise AnalysisError("_merge_clusters: inner merge() not found")
+    fn = M.func(fq)
+    cinit = M.find_method("matid.clustering.cluster.Cluster", "__init__")
+    ctor = [c for c in ast.walk(fn) if isinstance(c, ast.Call) and cinit in M.callees_of_call(fq, c)]
+    if not ctor:
+        raise AnalysisError("_merge_clusters.merge: construction of the merged Cluster not found")
+    reg = M.bind_args(cinit, ctor[0]).get("region")
+    defs = {s.targets[0].id: s.value for s in ast.walk(fn) if isinstance(s, ast.Assign) and len(s.targets) == 1 and isinstance(s.targets[0], ast.Name)}
+    e = reg
+    for _ in range(3):
+        if isinstance(e, ast.Name) and e.id in defs:
+            e = defs[e.id]
+
+    def by_size(call):
+        k = next((kw.value for kw in call.keywords if kw.arg == "key"), None)
+        if k is None or not any(isinstance(x, ast.Call) and isinstance(x.func, ast.Name) and x.func.id == "len" for x in ast.walk(k)):
+            return None
+        neg = isinstance(k, ast.Lambda) and isinstance(k.body, ast.UnaryOp) and isinstance(k.body.op, ast.USub)
+        rev = any(kw.arg == "reverse" and isinstance(kw.value, ast.Constant) and kw.value.value is True for kw in call.keywords)
+        return "descending" if (neg != rev) else "ascending"
+    verdict = None
+    if isinstance(e, ast.Call) and isinstance(e.func, ast.Name) and e.func.id in ("max", "min") and by_size(e):
+        verdict = (e.func.id == "max") == (by_size(e) == "ascending")
+    elif isinstance(e, ast.Subscript):
+        base = e.value
+        for _ in range(3):
+            if isinstance(base, ast.Name) and base.id in defs:
+                base = defs[base.id]
+        idx = e.slice
+        iv = idx.value if isinstance(idx, ast.Constant) else (-idx.operand.value if isinstance(idx, ast.UnaryOp) and isinstance(idx.op, ast.USub)
+                                                             and isinstance(idx.operand, ast.Constant) else None)
+        if isinstance(base, ast.Call) and isinstance(base.func, ast.Name) and base.func.id == "sorted" and by_size(base) and iv in (0, -1, 1):
+            last = iv in (-1, 1)
+            verdict = last == (by_size(base) == "ascending")
+    if verdict is None:
+        raise AnalysisError(f"_merge_clusters.merge: how the region of the merged cluster is chosen (`{norm(reg) if reg is not None else None}`) was not recognised")
+    if verdict:
+        rep.ok(rid, "_merge_clusters.merge: the merged cluster keeps the region with more basis atoms")
+    else:
+        rep.violation(rid, "_merge_clusters.merge: region of the merged cluster", f"`{norm(reg)}` is the *smaller* of the two regions: Cluster.get_cell() of a merged cluster then "
+                      "hands out the prototype cell of the region that usually stems from a surface seed and lacks basis atoms (Ti2O3 instead of TiO2: not a whole number of "
+                      "formula units, wrong space group)", M.where(fq, ctor[0]))
